@@ -99,6 +99,13 @@ struct JAttrs {      // storage for a jv_attrs passed to the adapter
             tl_env_rep->jv_wk_native_list_build(tl_env_view, nat, &l); l.native = nat; nat_copy.assign(nat, nat + nat_n);
         }
     }
+    // If this list equals the first entries of `longer` (values, indices, flags), hold it the way a caller holds a path and its prefix:
+    // as a second header over the SAME array. Returns true when the two lists now share their array.
+    bool share_array_with(JAttrs& longer) {
+        if (!nat || !longer.nat || a.size() > longer.a.size() || a.empty()) return false;
+        for (size_t i = 0; i < a.size(); i++) if (memcmp(&a[i], &longer.a[i], sizeof(jv_attr)) != 0) return false;
+        tl_env_rep->jv_wk_native_list_alias(tl_env_view, nat, longer.nat, a.size()); nat_copy.assign(nat, nat + nat_n); return true;
+    }
     JAttrs(const JAttrs&) = delete; JAttrs& operator=(const JAttrs&) = delete;
     ~JAttrs() { if (nat) { if (memcmp(nat, nat_copy.data(), nat_n) != 0) tl_list_modified = "an attribute list passed as a const input was modified by the call"; free(nat); } }
 };
